@@ -347,5 +347,31 @@ func (m c08) Directed(c *Ctx) {
 	run("label-brace", []string{"t1"}, QP{"filter", `\u007Bx`})
 	run("fieldless-type", []string{"e"})
 	run("fieldless-type-included", []string{"t1"}, QP{"fields[e]", "x"})
+	// canonical forms much longer than what was written (no length limit applies to one and not to the other):
+	// two types with 40 long-named attributes each, a filter tree of 60 leaves, 1-, 2- and 3-character type names
+	{
+		big1 := TypeSpec{Name: "invoices", Rels: []RelSpec{{Name: "customer", ToOne: true, ToType: "c"}}}
+		big2 := TypeSpec{Name: "c", Rels: []RelSpec{{Name: "n", ToType: "invoices"}}}
+		for i := 0; i < 40; i++ {
+			big1.Attrs = append(big1.Attrs, AttrSpec{Name: fmt.Sprintf("a-rather-long-attribute-name-number-%02d", i), Kind: allKinds[i%len(allKinds)]})
+			big2.Attrs = append(big2.Attrs, AttrSpec{Name: fmt.Sprintf("another_long_attribute_name_%02d", i), Kind: KString})
+		}
+		bs := &SchemaSpec{Types: []TypeSpec{big1, big2, {Name: "xy", Attrs: []AttrSpec{{Name: "q", Kind: KInt}}}}}
+		bschema := buildSchema(bs)
+		var leaves []string
+		for i := 0; i < 60; i++ {
+			leaves = append(leaves, fmt.Sprintf(`{"f":"a-rather-long-attribute-name-number-%02d","o":"=","v":"value number %d"}`, i%40, i))
+		}
+		for name, u := range map[string]*URLSpec{
+			"long-canonical-include": {Frags: []string{"invoices"}, Params: []QP{{"include", "customer"}, {"page[size]", "10"}}},
+			"long-canonical-filter":  {Frags: []string{"invoices"}, Params: []QP{{"filter", `{"o":"or","v":[` + strings.Join(leaves, ",") + `]}`}}},
+			"one-letter-type":        {Frags: []string{"c"}, Params: []QP{{"include", "n"}, {"page[n]", "1"}}},
+			"one-letter-related":     {Frags: []string{"invoices", "i1", "customer"}},
+			"two-letter-type":        {Frags: []string{"xy"}, Params: []QP{{"fields[xy]", "q"}}},
+		} {
+			c.Name = name
+			m.run(c, bs, bschema, u, r)
+		}
+	}
 	run("everything", []string{"t1"}, QP{"include", "authors.back,author"}, QP{"fields[t1]", "b,a"}, QP{"fields[t2]", "x"}, QP{"sort", "-b,a"}, QP{"page[size]", "10"}, QP{"page[number]", "2"}, QP{"filter", "lbl"})
 }
